@@ -13,8 +13,11 @@ LEVEL = ('narrow: decides four code-shape facts two of whose violations were con
          'backtrack events and vice versa, and the non-incremental path rebuilds (H1/H2). no update of'
          ' the running usage reaches the construction of a profile without a capacity comparison (H6);'
          ' a profile interval is built exactly when it is non-empty (H7 GUARD-TIGHT, decided on a '
-         'window). Everything else about the 144 variants — in particular the numbers they compute and'
-         ' zero-duration tasks — is NOT decided')
+         'window). both chain searches of the generate-sequence variants end a chain on the same gap '
+         'test (H8 SIBLINGS); the gap profile between two profiles is created iff the gap is non-empty'
+         ' and covered by the update range (H9 TABLE); the cached profile explanation is reset per '
+         'profile (H10). Everything else about the 144 variants — in particular the numbers they '
+         'compute and zero-duration tasks — is NOT decided')
 TECHNIQUE = "static analysis: must-pass / sentinel taint / dominance rules over rustc MIR"
 
 
@@ -398,6 +401,67 @@ def h8(led, rid, ctx):
               % (show(ra[1])[:50], ra[0], show(ra[2])[:30], show(rb[1])[:50], rb[0], show(rb[2])[:30], bad))
 
 
+def h9(led, rid, ctx):
+    """TABLE: the gap profile between two existing profiles is created exactly when the gap is
+    non-empty and the updated range covers it: guards ⇔ (S <= E and range.start <= S and range.end > E)"""
+    import itertools
+    from ..predalg import ev, Unknown
+    lib = ctx.lib
+    f = lib.fn("new_profile_between_profiles")
+    R = resolver(f)
+    rng = [a["local"] for a in f.args if "Range<" in a["ty"]]
+    if not rng:
+        raise AnchorMissing("update range parameter of new_profile_between_profiles")
+    aggs = aggregates(f, "ResourceProfile")
+    if len(aggs) != 1:
+        raise AnchorMissing("the single gap profile of new_profile_between_profiles")
+    bb, i, st = aggs[0]
+    e = R.rvalue(st["rv"])
+    d = dict(zip(e.d or [], e.c))
+    S, E_ = d["start"], d["end"]
+    OPS = {"Lt": lambda a, b: a < b, "Le": lambda a, b: a <= b, "Gt": lambda a, b: a > b, "Ge": lambda a, b: a >= b,
+           "Eq": lambda a, b: a == b, "Ne": lambda a, b: a != b}
+    guards = []
+    for g in guards_of(f, bb):
+        rf = rel_fact(g)
+        if rf and rf[0] in OPS:
+            fl = rf[1].fields() | rf[2].fields() if hasattr(rf[1].fields(), "__or__") else set(rf[1].fields()) | set(rf[2].fields())
+            if {"start", "end"} & set(fl):
+                guards.append(rf)
+    bad = None
+    try:
+        for pe, ps, us, ue in itertools.product(range(0, 7), repeat=4):
+            def leaf(x):
+                x = peel(x, calls=None)
+                if x.k != "proj":
+                    return None
+                fl = list(x.fields())
+                root = x
+                while root.k in ("proj", "ref"):
+                    root = peel(root.a, calls=None)
+                is_range = root.k == "arg" and root.a in rng
+                is_prev = any(c.name == "index" for c in x.calls())
+                if fl and fl[-1] == "start":
+                    return us if is_range else ps
+                if fl and fl[-1] == "end":
+                    return ue if is_range else (pe if is_prev else None)
+                return None
+            s_, e_ = ev(S, leaf), ev(E_, leaf)
+            got = all(OPS[rf[0]](ev(rf[1], leaf), ev(rf[2], leaf)) for rf in guards)
+            want = s_ <= e_ and us <= s_ and ue > e_
+            if got != want:
+                bad = ("previous.end=%d, profile.start=%d, update range %d..%d: the gap [%d, %d] is %s"
+                       % (pe, ps, us, ue, s_, e_, "created although it should not be" if got else "not created"))
+                break
+    except Unknown as u:
+        bad = "contains an expression the rule cannot evaluate (%s)" % u
+    led.check(bad is None and len(guards) >= 3, rid, "gap-profile-created-iff-covered", f.span,
+              "guards ⇔ non-empty ∧ covered by the update range",
+              "new_profile_between_profiles: %s — the incremental time-table misses (or invents) the part of a "
+              "new mandatory part that lies between two profiles, so this variant accepts overloads the others "
+              "refute" % (bad or "fewer than three guards found"))
+
+
 def h12(led, rid, ctx):
     """handler ⇔ registration for the cumulative propagators (instance of C01-S5)"""
     from .C01 import s5_propagator_events
@@ -414,3 +478,6 @@ def run(ctx, led):
     run_rule(led, "H6", "no update of the running usage reaches the construction of a profile without a capacity comparison", h6, ctx)
     run_rule(led, "H7", "GUARD-TIGHT: profile intervals are built exactly when non-empty", h7, ctx)
     run_rule(led, "H8", "SIBLINGS: both chain searches end a chain on the same gap test", h8, ctx)
+    run_rule(led, "H9", "TABLE: the gap profile between two profiles is created iff the gap is non-empty and covered by the update range", h9, ctx)
+    from . import C17 as _C17
+    run_rule(led, "H10", "the cached profile explanation is reset whenever the profile changes (shared with C17-L12)", _C17.l12, ctx)
